@@ -22,7 +22,7 @@
    PARTIAL: cycles through members of layered / referenced values (the walk passes through a
    ValueList or a reference) are covered by the cyclic streams of the check on every run, not
    by a theorem. *)
-From RV Require Import Model.Interp Proofs.WfFacts Proofs.StateFacts Proofs.StateIndep Proofs.Mono Proofs.NoPanic Proofs.Termination Proofs.CycleFacts Proofs.CycleGeneral Proofs.StateDown.
+From RV Require Import Model.Interp Proofs.WfFacts Proofs.StateFacts Proofs.StateIndep Proofs.Mono Proofs.NoPanic Proofs.Termination Proofs.CycleFacts Proofs.CycleGeneral Proofs.StateDown Proofs.ParserShape Proofs.Chains.
 
 (** The depth error is raised exactly at nesting depth 64 (documented limit), whatever the
     reference refers to ... *)
@@ -248,6 +248,54 @@ Proof.
   eapply C08_cycles_through_referenced_and_layered_members_yield_no_value; [|exact Hc | exact I|].
   - cbn. repeat split; repeat constructor; cbn; intuition discriminate.
   - cbn [forces]. eexists. split; [vm_compute; reflexivity|]. apply cyc_parts_lit. cbn. tauto.
+Qed.
+
+(** "... acyclic references never are": chains of whole-value references k0: ${k1}, ..., kn: target
+    (distinct one-segment keys, any length, met at any state that has seen none of them).  The head
+    renders to the target exactly when the chain fits below the documented depth of 64, and to the
+    depth error otherwise: never a loop error, never a wrong value (Proofs/Chains.v). *)
+Theorem C08_acyclic_chains_render_up_to_the_depth_limit :
+  forall root target, scalar target -> forall ks st,
+    links root ks target -> Forall key_ok ks -> NoDup ks -> Forall (fun k => mem k (seen st) = false) ks ->
+    exists F, forall f, F <= f ->
+      match ks with
+      | [] => True
+      | k0 :: _ =>
+          if Nat.leb (depth st + List.length ks) RESOLVE_MAX_DEPTH
+          then exists st', interp f root (VStr (refs k0)) st = Ok (target, st')
+          else exists ck sn, interp f root (VStr (refs k0)) st = Err (EDepth ck sn)
+      end.
+Proof. exact chain_renders. Qed.
+Eval cbv in "ASSUMPTIONS-OF C08_acyclic_chains_render_up_to_the_depth_limit"%string. Print Assumptions C08_acyclic_chains_render_up_to_the_depth_limit.
+
+Theorem C08_chains_of_at_most_64_references_render :
+  forall root target k0 ks,
+    scalar target -> links root (k0 :: ks) target -> Forall key_ok (k0 :: ks) -> NoDup (k0 :: ks) ->
+    List.length (k0 :: ks) <= RESOLVE_MAX_DEPTH ->
+    exists F, forall f, F <= f -> exists st', interp f root (VStr (refs k0)) st0 = Ok (target, st').
+Proof. exact chains_within_the_limit_render. Qed.
+Eval cbv in "ASSUMPTIONS-OF C08_chains_of_at_most_64_references_render"%string. Print Assumptions C08_chains_of_at_most_64_references_render.
+
+Theorem C08_longer_chains_are_depth_errors :
+  forall root target k0 ks,
+    scalar target -> links root (k0 :: ks) target -> Forall key_ok (k0 :: ks) -> NoDup (k0 :: ks) ->
+    RESOLVE_MAX_DEPTH < List.length (k0 :: ks) ->
+    exists F, forall f, F <= f -> exists ck sn, interp f root (VStr (refs k0)) st0 = Err (EDepth ck sn).
+Proof. exact chains_beyond_the_limit_are_depth_errors. Qed.
+Eval cbv in "ASSUMPTIONS-OF C08_longer_chains_are_depth_errors"%string. Print Assumptions C08_longer_chains_are_depth_errors.
+
+(** non-vacuity: a chain of three keys; its premises hold, and both branches occur (from the top
+    level it renders; met at depth 62 it exceeds the limit) *)
+Example C08_chain_premises_hold :
+  let root := [ mk_entry (VStr "a") (VStr "${b}") false false; mk_entry (VStr "c") (VNum (NInt 7)) false false;
+                mk_entry (VStr "b") (VStr "${c}") false false ] in
+  links root ["a"; "b"; "c"]%string (VNum (NInt 7)) /\ Forall key_ok ["a"; "b"; "c"]%string /\ NoDup ["a"; "b"; "c"]%string /\
+  (exists st', interp 40 root (VStr (refs "a")) st0 = Ok (VNum (NInt 7), st')) /\
+  (exists ck sn, interp 40 root (VStr (refs "a")) (Build_rstate [] 62 []) = Err (EDepth ck sn)).
+Proof.
+  cbn zeta. split; [repeat split; reflexivity|]. split; [repeat constructor; try discriminate; reflexivity|].
+  split; [repeat constructor; cbn; intuition discriminate|].
+  split; [eexists; vm_compute; reflexivity | eexists; eexists; vm_compute; reflexivity].
 Qed.
 
 (** Boundary evaluations on the model (kernel computations, instances -- not the general claim):
